@@ -572,7 +572,8 @@ class Interp:
                     pt = p["args"][0]
                     ty = pt["ty"]
                     is_mut_ref = ty.get("_") == "Type::Reference" and is_some(ty.get("mutability"))
-                    if not is_mut_ref:
+                    is_ref = ty.get("_") == "Type::Reference"
+                    if not is_mut_ref and not (is_ref and isinstance(a, Rf) and self.interior(self.deref(a))):
                         a = self.deref(a)
                     c = self.bind(pt["pat"], a, sc, cx)
                     if c is not True:
@@ -651,6 +652,18 @@ class Interp:
                 cur = self.read(cur.place)
         return t
 
+    def interior(self, v):
+        """does this value have interior mutability (Arc/RwLock/Mutex/atomics/Cell in its struct)? Shared
+        references to such values must alias, not copy."""
+        v = v if not isinstance(v, Rf) else None
+        if not isinstance(v, St) or v.name not in self.structs:
+            return False
+        cache = self.__dict__.setdefault("_interior", {})
+        if v.name not in cache:
+            txt = repr(self.structs[v.name][1])
+            cache[v.name] = any(k in txt for k in ("'RwLock'", "'Mutex'", "'RefCell'", "'Cell'", "'AtomicU64'", "'AtomicUsize'", "'AtomicBool'", "'AtomicI64'"))
+        return cache[v.name]
+
     def junk_ret(self, sig, selfty):
         """value for a call that is never executed (its guard is unsatisfiable)"""
         out = sig.get("output")
@@ -685,6 +698,8 @@ class Interp:
             if f.item is not None:
                 return self.call_item(f.item, args, f.selfty)
             return self.bi.call_path(f.path, args, None, None)
+        if isinstance(f, V.PyFn):
+            return f.fn(self, args)
         raise Unsupported("call of %r" % (type(f),))
 
     # ---------------------------------------------------------------- blocks / statements
@@ -1046,7 +1061,14 @@ class Interp:
             sc.vars[name] = v
             return Rf(Place(sc, name))
         v = self.ev(e["expr"], sc, cx, hint)
-        return self.deref(v)
+        if isinstance(v, Rf) and self.interior(self.deref(v)):
+            return v
+        dv = self.deref(v)
+        if self.interior(dv):
+            p = self.place_of(e["expr"], sc, cx)
+            if p is not None:
+                return Rf(p)
+        return dv
 
     def ev_Unary(self, e, sc, cx, hint):
         op = e["op"]["_"]
